@@ -324,6 +324,14 @@ func c07Body(c *ev.Ctx) {
 				add(p, fmt.Sprintf("merkleProofs[%d] one element more", i), false)
 			}
 		}
+		for i, x := range nearValidInsBatches(d, b) {
+			xx := x
+			cases = append(cases, c07Case{Mode: "insertion", D: d, B: b, Ins: &xx, Why: fmt.Sprintf("near-valid batch #%d (start %s: positions past the end / occupied leaf, wrapped-around paths)", i, x.Start), Valid: false})
+		}
+		for i, x := range nearValidDelBatches(d, b) {
+			xx := x
+			cases = append(cases, c07Case{Mode: "deletion", D: d, B: b, Del: &xx, Why: fmt.Sprintf("near-valid batch #%d (indices %v: padding or too-high index with a genuine membership proof / wrong post-root)", i, x.Idx), Valid: false})
+		}
 		// dimensions of another system: a valid batch for (d, b) offered to nothing else here;
 		// a valid batch of other dimensions offered to this system
 		if d >= 2 {
